@@ -2,7 +2,7 @@
 composed under a seeded PRNG.  The specs travel inside the operation, so a
 replay file needs no generator."""
 
-UNKNOWN_NAMES = ["bogus", "Title", "x-data", "acknowledgements"]
+UNKNOWN_NAMES = ["bogus", "Title", "x-data", "acknowledgements", "software", "protocol", "studyAreaDescription"]
 KNOWN_FOR_MISPLACING = ["title", "creator", "surName", "para", "role", "references", "metadata",
                         "keyword", "individualName", "dataset", "value", "contact", "access"]
 TEXTS = ["Green sea turtle counts", "a < b & c", "x", "one two three four five six", "été \U0001F600",
